@@ -265,7 +265,15 @@ partial def coerceTo (env : Env) (ty : Ty) (v : Val) : CM Val :=
   if isDflt v then opt (zeroOf env ty) "zero value of the target type"
   else match ty, v with
   | _, .unit => pure .unit
-  | .s t, v => if isScalar v then implicitScalar t v else throw (.stuck "aggregate assigned to a scalar")
+  | .s t, v =>
+    if isScalar v then
+      -- C++ (MSL) and HLSL convert a floating value implicitly when it initialises an integer (truncation; undefined
+      -- when out of range); GLSL has no such implicit conversion
+      match env.d, t, v with
+      | .glsl, _, _ => implicitScalar t v
+      | _, .i32, .f32 _ | _, .u32, .f32 _ => cConvScalar t v
+      | _, _, _ => implicitScalar t v
+    else throw (.stuck "aggregate assigned to a scalar")
   | .vec n t, .vec xs =>
     if xs.length = n then do pure (.vec (← xs.mapM (implicitScalar t))) else throw (.stuck "vector size mismatch in initialisation")
   | .vec n t, v => if isScalar v then do pure (.vec (List.replicate n (← implicitScalar t v))) else throw (.stuck "aggregate assigned to a vector")
